@@ -1,5 +1,7 @@
 """C14 — all bucket implementations and combinators behave as one path-to-bytes map.
 Spec: specs/storage/Storage.tla (MCStorage.tla binds the constants)."""
+import json
+import zlib
 import vlib
 
 KINDS = [["mem", "mem"], ["os", "os"], ["os", "mem"], ["mem", "os"]]
@@ -10,24 +12,42 @@ def run(ctx):
     # exhaustive TLC (laws of the design) + emission of every state (with the expected answer of every
     # query on every view) and of every transition
     res = ctx.tlc_must_hold("storage", "MCStorage", cfg, emit_tags=("STATE", "EDGE", "SPELL"),
-                            constants={"Emit": '"both"'}, timeout=7000, heap="16g")
+                            constants={"Emit": '"both"'}, timeout=7000, heap="16g", emit_raw=True)
     states, edges, spells = res["emit"]["STATE"], res["emit"]["EDGE"], res["emit"]["SPELL"]
     if len(states) != res["distinct"] or not edges or len(spells) != 1:
         raise vlib.Infra("emission incomplete: %d states of %d, %d edges, %d spell tables" % (len(states), res["distinct"], len(edges), len(spells)))
     ctx.exhaustive = True
-    spells = spells[0]
+    spells = json.loads(spells[0])
     vlib.log("TLC: %d states, %d transitions emitted" % (len(states), len(edges)))
     kinds = KINDS if not ctx.quick else KINDS[:3]
     ekinds = KINDS if not ctx.quick else KINDS[:2]
+    # The records stay unparsed JSON texts on this side (a state carries the expected answer of every query on every
+    # view).  They are cut into groups by state so that neither side ever holds all of them: a transition goes with the
+    # group of its post-state, whose expected observations it needs.
+    ngroups = 1 if ctx.quick else 12
+
+    def canon(st):
+        return json.dumps({b: sorted(("/".join(o["p"]), o["c"]) for o in st[b]) for b in sorted(st)}, sort_keys=True)
+
+    def group_of(key):
+        return zlib.crc32(key.encode()) % ngroups
+    sgroups = [[] for _ in range(ngroups)]
+    for raw in states:
+        sgroups[group_of(canon(json.loads(raw)["state"]))].append(raw)
+    egroups = [[] for _ in range(ngroups)]
+    for raw in edges:
+        egroups[group_of(canon(json.loads(raw)["to"]))].append(raw)
+    del states, edges, res
     # negative controls
-    n1 = ctx.vh("storage-states", {"states": states[:40], "spells": spells, "kinds": kinds[:1], "corrupt": True})
-    n2 = ctx.vh("storage-edges", {"edges": edges[:400], "states": [], "spells": spells, "kinds": kinds[:1], "corrupt": True})
+    n1 = ctx.vh("storage-states", {"states": sgroups[0][:40], "spells": spells, "kinds": kinds[:1], "corrupt": True})
+    n2 = ctx.vh("storage-edges", {"edges": egroups[0][:400], "states": [], "spells": spells, "kinds": kinds[:1], "corrupt": True})
     if not n1["violations"] or not n2["violations"]:
         raise vlib.Infra("negative control failed (states: %d, edges: %d violations)" % (len(n1["violations"]), len(n2["violations"])))
-    out = ctx.vh("storage-states", {"states": states, "spells": spells, "kinds": kinds}, timeout=7000)
-    ctx.add_result(out)
-    out = ctx.vh("storage-edges", {"edges": edges, "states": states, "spells": spells, "kinds": ekinds}, timeout=7000)
-    ctx.add_result(out)
+    for g in range(ngroups):
+        if sgroups[g]:
+            ctx.add_result(ctx.vh("storage-states", {"states": sgroups[g], "spells": spells, "kinds": kinds}, timeout=7000))
+        if egroups[g]:
+            ctx.add_result(ctx.vh("storage-edges", {"edges": egroups[g], "states": sgroups[g], "spells": spells, "kinds": ekinds}, timeout=7000))
     ctx.assumptions += [
         "path universe {a/x, ab/x, a.proto, b/c/d, b/c.proto}; contents empty/small/70kB; two bases of kinds memory/disk",
         "ObjectInfo.Path() is compared after cleaning (disk and mapped buckets report the spelling they were given); ExternalPath/LocalPath are outside the property",
